@@ -245,16 +245,43 @@ def find_containers(ctx, fn_name: str):
     fc = prog.cls('ast', 'FileContents')
     fields = prog.class_fields(fc)
     out = []
-    lists = [n for n in iter_own_nodes(fn.node) if isinstance(n, ast.For) and isinstance(n.iter, (ast.List, ast.Tuple))]
+    defs = {}
+    for n in iter_own_nodes(fn.node):
+        if isinstance(n, ast.Assign) and len(n.targets) == 1 and isinstance(n.targets[0], ast.Name):
+            defs.setdefault(n.targets[0].id, []).append(n.value)
+
+    def parts(e):
+        """literal elements and non-literal remainders of a container-list expression (`[a, b] + extra`, hoisted local)"""
+        if isinstance(e, (ast.List, ast.Tuple)):
+            return list(e.elts), []
+        if isinstance(e, ast.BinOp) and isinstance(e.op, ast.Add):
+            l1, r1 = parts(e.left)
+            l2, r2 = parts(e.right)
+            return l1 + l2, r1 + r2
+        if isinstance(e, ast.Name) and len(defs.get(e.id, [])) == 1 and isinstance(defs[e.id][0], (ast.List, ast.Tuple, ast.BinOp)):
+            return parts(defs[e.id][0])
+        return [], [e]
+
+    lists = []
+    for n in iter_own_nodes(fn.node):
+        if isinstance(n, ast.For):
+            lit_, rest = parts(n.iter)
+            if lit_ and all(isinstance(x, ast.Attribute) for x in lit_):
+                lists.append((n, lit_, rest))
     if len(lists) != 1:
         raise AnalysisError(f'{fn_name}: expected exactly one loop over a literal list of containers')
-    for e in lists[0].iter.elts:
+    loop, elts, rest = lists[0]
+    for e in elts:
         if not (isinstance(e, ast.Attribute) and e.attr in fields):
             raise AnalysisError(f'{fn_name}: container `{ast.unparse(e)}` is not a FileContents field')
         ann = fields[e.attr][0]
         t = prog.ann_to_type(fc.module, ann, fc)
         elem = prog.classes.get(t[1][1]) if t[0] == 'list' and t[1][0] == 'cls' else None
         out.append((e.attr, elem))
+    for e in rest:
+        # further containers that are not FileContents fields (e.g. the nested types of every interface)
+        out.append((f'<{ast.unparse(e)[:40]}>', None))
+    lists = [loop]
     return out, lists[0]
 
 
